@@ -130,20 +130,20 @@ def check_method(m, node, fails, where):
         fails.append(("method-params", f"{where}: expected params {m['params']!r} got {inner!r}"))
     check_adm(m, node, fails, where)
     check_doc(m, node, fails, where)
-    # :type p: T pairs, position-wise
-    actd = {}
+    # :type p: T pairs, position-wise (parameter names may coincide after stripping: compare as lists)
+    doc_set = set(m.get("doc") or [])
+    actd, expd = {}, {}
     for n, v in node.fields:
-        actd.setdefault(n, []).append(v)
+        if n.startswith("type ") and f":{n}: {v}" not in doc_set:
+            actd.setdefault(n, []).append(v)
     for n, v in m["fields"]:
         if n.startswith("type "):
-            if [x for x in actd.get(n, []) if f":{n}: {x}" not in set(m.get("doc") or [])] != [v]:
-                fails.append(("method-type-pair", f"{where}: expected :{n}: {v!r}, got {actd.get(n)!r}"))
-    exp_type_names = {n for n, _ in m["fields"] if n.startswith("type ")}
-    doc_set = set(m.get("doc") or [])
+            expd.setdefault(n, []).append(v)
+    for n in expd:
+        if actd.get(n) != expd[n]:
+            fails.append(("method-type-pair", f"{where}: expected :{n}: {expd[n]!r}, got {actd.get(n)!r}"))
     for n in actd:
-        if n.startswith("type ") and n not in exp_type_names:
-            if all(f":{n}: {v}" in doc_set for v in actd[n]):
-                continue        # written by the user in the doccomment
+        if n not in expd:
             fails.append(("method-type-extra", f"{where}: unexpected field :{n}: {actd[n]!r}"))
 
 
